@@ -228,6 +228,54 @@ def recheck(jobs):
             print(k, len(work), mid, {c: v['rc'] for c, v in res.items()}, flush=True)
 
 
+def again_one(args):
+    m, todo = args
+    d = make_copy()
+    res = {}
+    try:
+        open(os.path.join(d, m['file']), 'w').write(m['text'])
+        for c in todo:
+            env = dict(os.environ, VERIF_REPO=d, VERIF_QUICK_S='10', VERIF_SHARDS='4', VERIF_COV='0')
+            try:
+                p = subprocess.run([PY, 'run.py', 'check', c, '--tier', 'quick'], cwd=ROOT, env=env, capture_output=True, text=True, timeout=1200)
+                keys = [l.strip().split(']')[0].lstrip('[') for l in p.stdout.splitlines() if l.startswith('  [')]
+                res[c] = dict(rc=p.returncode, keys=keys[:2])
+                if p.returncode == 1:
+                    break
+            except subprocess.TimeoutExpired:
+                res[c] = dict(rc='timeout', keys=[])
+    finally:
+        shutil.rmtree(d, ignore_errors=True)
+    return m['id'], res
+
+
+def again(jobs):
+    "survivors no check caught so far, once more against the current machinery (4 shards x 10 s); files changed in /repo since `gen` are skipped"
+    muts = {m['id']: m for m in json.load(open(os.path.join(STATE, 'mutants.json')))}
+    done = json.load(open(os.path.join(STATE, 'checks.json')))
+    rpath = os.path.join(STATE, 'recheck.json')
+    re_ = json.load(open(rpath)) if os.path.exists(rpath) else {}
+    path = os.path.join(STATE, 'again.json')
+    ag = json.load(open(path)) if os.path.exists(path) else {}
+    stale = set(os.environ.get('MUT_STALE', 'droop/profile.py').split(','))
+    work = []
+    for i, r in done.items():
+        allr = list(r.values()) + list(re_.get(i, {}).values())
+        if any(c['rc'] == 1 for c in allr) or i in ag or muts[i]['file'] in stale:
+            continue
+        if i.startswith('Droop.py:') and int(i.split(':')[1]) >= 100:
+            continue
+        todo = list(dict.fromkeys(CHECKS.get(muts[i]['file'], []) + EXTRA.get(muts[i]['file'], [])))
+        if todo:
+            work.append((muts[i], todo))
+    print(len(work), 'survivors to run', flush=True)
+    with concurrent.futures.ThreadPoolExecutor(max_workers=jobs) as ex:
+        for k, (mid, res) in enumerate(ex.map(again_one, work)):
+            ag[mid] = res
+            json.dump(ag, open(path, 'w'))
+            print(k, len(work), mid, '|', muts[mid]['src'], '|', {c: v['rc'] for c, v in res.items()}, flush=True)
+
+
 def report():
     muts = {m['id']: m for m in json.load(open(os.path.join(STATE, 'mutants.json')))}
     tests_ = json.load(open(os.path.join(STATE, 'tests.json')))
@@ -256,5 +304,7 @@ if __name__ == '__main__':
         checks(jobs)
     elif cmd == 'recheck':
         recheck(jobs)
+    elif cmd == 'again':
+        again(jobs)
     elif cmd == 'report':
         report()
